@@ -44,7 +44,7 @@ def main():
         "setup_cmd": "./setup.sh",
         "hooks": {"guard": "OVLD_VERIF", "enable": "OVLD_VERIF=1 in the environment of the implementation process (set by ./check)",
                   "baseline_off_cmd": "cd /repo && env -u OVLD_VERIF /venv/bin/python -m pytest -ra -q -p no:cacheprovider --timeout=900 --continue-on-collection-errors",
-                  "source_commits": [], "add_only": True},
+                  "source_commits": ["32c6aa9229a4cb4e2a667735494285b977a47086"], "add_only": True},
         "engines": [{"name": "coq-model", "path": "/verif/coq", "serves_properties": sorted(CLAIMS),
                      "kind_free_text": "Coq 8.16 development: executable Gallina model (Model/), specs (Spec/), proofs (Proofs/), property theorems (Props/), extracted to OCaml (ocaml/driver.ml) and driven by the Python harness vlib/ against /repo/src"}],
         "checks": checks,
